@@ -285,8 +285,8 @@ func compile(patterns []string, mode Mode) (*regexp.Regexp, error) {
 							w = j + 2
 							b.WriteString(pat[:w])
 						default:
-							b.WriteRune(r)
-							break Bracket
+							// an ordinary "["
+							continue Bracket
 						}
 					case ']':
 						b.WriteByte(']')
